@@ -85,6 +85,17 @@ type NestStruct struct {
 // String returns the string representation of the nested struct assignment.
 func (s NestStruct) String() string {
 	var sb strings.Builder
+	sb.WriteString(s.Open())
+	for _, content := range s.Contents {
+		sb.WriteString(content.String())
+	}
+	sb.WriteString(s.Close())
+	return sb.String()
+}
+
+// Open returns the code that precedes the contents of the nested struct assignment.
+func (s NestStruct) Open() string {
+	var sb strings.Builder
 	if s.NullCheckExpr != "" {
 		sb.WriteString("if ")
 		sb.WriteString(s.NullCheckExpr)
@@ -94,13 +105,15 @@ func (s NestStruct) String() string {
 		sb.WriteString(s.InitExpr)
 		sb.WriteString("\n")
 	}
-	for _, content := range s.Contents {
-		sb.WriteString(content.String())
-	}
-	if s.NullCheckExpr != "" {
-		sb.WriteString("}\n")
-	}
 	return sb.String()
+}
+
+// Close returns the code that follows the contents of the nested struct assignment.
+func (s NestStruct) Close() string {
+	if s.NullCheckExpr != "" {
+		return "}\n"
+	}
+	return ""
 }
 
 // RetError returns whether the assignment returns an error value.
